@@ -10,7 +10,7 @@ Relations exercised on every run
 
 Document representation (JSON friendly; also the replay format)
   atom : ["i", n] | ["r", "p/q"] | ["n", "Name"] | ["R", objid] | ["null"]
-  val  : atom | ["a", [elem, ...]] | ["d", [[key, atom], ...]]      elem : atom | ["d", [[key, atom], ...]]
+  val  : atom | ["a", [val, ...]] | ["d", [[key, val], ...]]        (nested to any depth)
   obj  : ["D", [[key, val], ...]]  (a dictionary object: page-tree node, indirect Resources ...)  | val
   doc  : {"catalog": [[key, val], ...], "objs": [[objid, obj], ...], "glyph": {pageid: ["tx","ty"]}, "kind": ...}
 Objects 1 (catalog), 3 (Helvetica), 4 (font dictionary << /F1 3 0 R >>) and the content streams are added by
@@ -35,16 +35,21 @@ RULE = ("documents: page trees of <= 60 nodes generated as real PDFs (chains up 
         "comb shapes; node ids shuffled against Kids order; Resources/MediaBox/CropBox/Rotate placed at random levels, "
         "direct or indirect, box elements int/real/indirect, unnormalised and wrong-length boxes, Rotate negative, "
         ">= 360, non-multiples of 90; Kids arrays direct/indirect); graph cases add back edges, self loops, repeated "
-        "and shared kids; wild cases (tie only) add catalog-level attributes, unknown/missing Type, dangling kids, "
-        "non-integer Rotate, non-numeric boxes, missing /Pages (fallback scan). Each document is observed through "
+        "and shared kids, every tenth document a small dense Kids graph (8-15 nodes, up to 16 extra edges: cycles "
+        "through several nodes, nodes shared many times); Resources with nested direct dictionaries/arrays; wild cases (tie only) add catalog-level attributes, unknown/missing Type, dangling kids, "
+        "non-integer Rotate, non-numeric boxes, boxes with array/dictionary elements, direct Page dictionaries in "
+        "Kids with direct boxes and nested Resources, arrays in Kids, missing /Pages (fallback scan). Each document is observed through "
         "PDFPage.get_pages, 4-6 (page_numbers, maxpages) selections incl. selected indices beyond the limit, "
+        "page_numbers None / empty / list with duplicates / set / negative and too large members / no member in "
+        "range, maxpages negative (tie only); the page order also against the path-enumeration specification; "
         "extract_text and the PDFPageAggregator (LTPage.bbox + one glyph matrix per page). A case is non-trivial "
         "when it is a distinct document with >= 2 pages and >= 1 inherited attribute, or a distinct selection that "
         "drops >= 1 page")
 TRUSTED_BASE = [
     "tools/translate/gen_c04.py (Python ast -> Lean) for INHERITABLE_ATTRS, the Rotate normalisation arithmetic of "
     "PDFPage.__init__, the rotation option of extract_text_to_fp, the US-Letter default, _normalize_rect, the "
-    "process_page rotation->CTM table, begin_page's box and the tests of the overlay loop and of the get_pages loop; "
+    "process_page rotation->CTM table, begin_page's box, the tests of the overlay loop and of the get_pages loop, "
+    "the entries PDFPage.__init__ reads (KEY_*) and the default structure of _parse_mediabox/_parse_cropbox; "
     "the statement skeletons of depth_first_search, of the tail of create_pages and of the get_pages loop, and the "
     "page_numbers/maxpages plumbing of extract_text/extract_pages/extract_text_to_fp are asserted on the AST; every "
     "translated definition is also run against pdfminer",
@@ -57,11 +62,13 @@ TRUSTED_BASE = [
 ASSUMPTIONS = [
     "property domain: Kids entries are indirect references; Type values are direct names. Integer kids, dictionaries "
     "written directly into Kids or as catalog Pages (Page yielded with pageid None, Pages ignored), atoms in Kids "
-    "are modelled and generated for the tie; dictionary values are atoms or arrays (a direct dictionary holds atoms)",
+    "are modelled and generated for the tie; values nest to any depth (arrays and dictionaries inside direct "
+    "dictionaries and arrays)",
     "the catalog itself carries no inheritable attribute (property domain: trees of Pages/Page nodes); "
     "catalog-level attributes are generated for the model/implementation tie only",
     "Rotate values are integers; boxes are arrays of numbers (other types get the default box / 0: tie only)",
-    "empty page_numbers means all pages (Python truthiness); maxpages is a natural number, 0 = no limit",
+    "page_numbers None or empty means all pages (Python truthiness), any container of integers otherwise; the "
+    "property's domain has maxpages >= 0 (0 = no limit); a negative maxpages is modelled (acts like 1) for the tie",
     "tree depth stays below Python's recursion limit (generated depth <= 25 quick / <= 200 thorough)",
 ]
 STATEMENT_STATUS: Dict[str, str] = {
@@ -93,6 +100,24 @@ STATEMENT_STATUS: Dict[str, str] = {
     "C04_select": "proved on the regenerated loop tests: maxpages natural (0 = no limit), empty page_numbers = all",
     "C04_select_pending": "proved (was defined by fiat): a pending exception of create_pages is raised by get_pages "
                           "iff the index of the failing page is below the limit",
+    "C04_graph_order": "proved (new): on EVERY Kids graph the yielded indirect pages = specOrder, the first arrivals "
+                       "of the depth-first enumeration of all simple Kids paths (algorithm-independent: no visited "
+                       "set); hypothesis: the walk ends normally (no integer kid naming nothing)",
+    "C04_path_budget": "proved: the path budget #objects+1 of specOrder cuts no simple path",
+    "C04_order_specs_agree": "proved: on page trees specOrder = leaf order of the inductive tree specification",
+    "C04_direct_kid": "proved: a direct Page dictionary in Kids (values nested to any depth) is yielded without "
+                      "object number with own-or-inherited attributes; an array in Kids is ignored (tie domain)",
+    "C04_select_py": "proved: get_pages with page_numbers None / any container of integers (duplicates, negative, "
+                     "too large) and every maxpages >= 0 = one-line specification, incl. the pending exception",
+    "C04_select_members": "proved: containers with the same members select the same pages (any maxpages)",
+    "C04_select_none_empty": "proved: None and an empty container are the same request",
+    "C04_select_out_of_range": "proved: a non-empty container without a member in range selects nothing",
+    "C04_select_negative_limit": "proved (outside the domain, code fact): a negative maxpages acts like 1",
+    "C04_box_defaults": "proved on the regenerated _parse_mediabox/_parse_cropbox structure: missing/ill-formed "
+                        "MediaBox -> US Letter, missing/ill-formed CropBox -> the page's MediaBox",
+    "C04_rotate_quarter": "proved: an integer Rotate that is a multiple of 90 is stored as 0, 90, 180 or 270",
+    "C04_page_lands": "proved: C04_ctm/C04_ctm_bbox/C04_render for every page PDFPage.__init__ constructs with "
+                      "Rotate a multiple of 90 - no hypothesis on the boxes left",
     "C04_select_pinned_cex": "proved counter-example for the pinned loop (page_numbers={5}, maxpages=2); fixed in 262fbfd",
 }
 
@@ -149,7 +174,7 @@ def val_to_w(v):
     if v[0] == "a":
         return [val_to_w(a) for a in v[1]]
     if v[0] == "d":
-        return {k: atom_to_w(a) for k, a in v[1]}
+        return {k: val_to_w(a) for k, a in v[1]}
     raise ValueError(v)
 
 
@@ -208,7 +233,7 @@ def val_txt(v) -> str:
     if v[0] == "a":
         return "[ " + "".join(val_txt(a) + " " for a in v[1]) + "]"
     if v[0] == "d":
-        return "{ " + "".join(f"{k} {atom_txt(a)} " for k, a in v[1]) + "}"
+        return "{ " + "".join(f"{k} {val_txt(a)} " for k, a in v[1]) + "}"
     raise ValueError(v)
 
 
@@ -454,6 +479,42 @@ def spec_walk(doc) -> List[Tuple[int, Dict[str, Any]]]:
     return out
 
 
+def spec_order_paths(doc) -> Optional[List[int]]:
+    """Twin of the Lean `specOrder`: the Page nodes in the order in which the depth-first enumeration of ALL simple
+    Kids paths from the root first arrives at them (no visited set; a branch ends only where it would come back to
+    one of its own ancestors). None: root is not a reference / too many paths."""
+    objs = objs_of(doc)
+    root = dget(doc["catalog"], "Pages")
+    if root is None or root[0] != "R":
+        return None
+    order: List[int] = []
+    budget = [100000]
+
+    def rec(nid: int, path: Tuple[int, ...]) -> None:
+        budget[0] -= 1
+        if budget[0] < 0:
+            raise SpecError("too many paths")
+        if nid in path:
+            return
+        node = resolve(objs, ["R", nid])
+        pairs = node[1] if node[0] in ("D", "d") else []
+        t = node_type(pairs)
+        kids = dget(pairs, "Kids")
+        if t == "Pages" and kids is not None:
+            kv = resolve(objs, kids)
+            for kid in (kv[1] if kv[0] == "a" else []):
+                if kid[0] == "R" or (kid[0] == "i" and int(kid[1]) >= 0):
+                    rec(int(kid[1]), path + (nid,))
+        elif t == "Page":
+            if nid not in order:
+                order.append(nid)
+    try:
+        rec(int(root[1]), ())
+    except (SpecError, RecursionError):
+        return None
+    return order
+
+
 def spec_pages(doc) -> Tuple[List[str], Optional[str]]:
     objs = objs_of(doc)
     out: List[str] = []
@@ -609,6 +670,12 @@ class DocGen:
             pairs = [["Marker", ["i", marker]], ["Font", ["R", 4]]]
             if rng.random() < 0.5:
                 pairs.reverse()
+        if pairs and rng.random() < 0.35:
+            # the usual shape in real files: /Resources << /Font << /F1 3 0 R >> /ProcSet [ /PDF /Text ] >>
+            pairs = [[k, (["d", [["F1", ["R", 3]]]] if k == "Font" else v)] for k, v in pairs]
+            if rng.random() < 0.5:
+                pairs.append(["ProcSet", ["a", [["n", "PDF"], ["n", "Text"]]]])
+            self.b("resources:nested-direct")
         if rng.random() < 0.4:
             self.b("resources:indirect")
             return self.indirect(["D", pairs])
@@ -800,7 +867,8 @@ def add_wild(rng, doc, ctx=None) -> None:
         kind = rng.choice(["catalog-attr", "rotate-type", "type-unknown", "type-missing", "no-kids", "dangling-kid",
                            "int-kid", "box-name", "box-null", "box-int", "no-pages", "orphans", "ref-chain",
                            "null-attr", "atom-kid", "ref-cycle", "pages-array", "direct-kid", "direct-kid",
-                           "pages-direct", "long-chain"])
+                           "pages-direct", "long-chain", "array-kid", "box-nested-elem", "direct-kid-nested",
+                           "array-kid", "box-nested-elem", "direct-kid-nested", "direct-kid-nested"])
         if ctx is not None:
             ctx.branch("wild:" + kind)
         n = rng.choice(nodes) if nodes else None
@@ -878,6 +946,30 @@ def add_wild(rng, doc, ctx=None) -> None:
                     pairs.append(["Kids", rng.choice([["R", doc["root"]], put(["a", [["R", doc["root"]]]])])])
                 rng.shuffle(pairs)
                 ks.insert(rng.randint(0, len(ks)), ["d", pairs])
+        elif kind == "direct-kid-nested":
+            # a Page written directly into Kids with direct arrays / dictionaries inside it
+            inner = [x for x in nodes_of(doc, "Pages") if kids_list(doc, x) is not None]
+            if inner:
+                ks = kids_list(doc, rng.choice(inner))
+                pairs = [["Type", ["n", "Page"]],
+                         ["MediaBox", ["a", [["i", rng.choice([0, 300])], ["i", 2], ["r", "201/2"], ["i", rng.choice([300, 10])]]]],
+                         ["Resources", ["d", [["Marker", ["i", rng.randint(500, 599)]], ["Font", ["d", [["F1", ["R", 3]]]]]]]]]
+                if rng.random() < 0.5:
+                    pairs.append(["CropBox", ["a", [["i", 5], ["R", doc["root"]], ["i", 50], ["i", 60]]]])
+                if rng.random() < 0.5:
+                    pairs.append(["Rotate", ["i", rng.choice([90, 270, -90])]])
+                rng.shuffle(pairs)
+                ks.insert(rng.randint(0, len(ks)), ["d", pairs])
+        elif kind == "array-kid":
+            inner = [x for x in nodes_of(doc, "Pages") if kids_list(doc, x) is not None]
+            if inner:
+                ks = kids_list(doc, rng.choice(inner))
+                ks.insert(rng.randint(0, len(ks)), ["a", [["R", doc["root"]], ["d", [["Type", ["n", "Page"]]]]]])
+        elif kind == "box-nested-elem" and n is not None:
+            pairs = objs[n][1]
+            k = rng.choice(["MediaBox", "CropBox"])
+            bad = rng.choice([["a", [["i", 100]]], ["d", [["x", ["i", 1]]]], ["a", []]])
+            pairs[:] = [p for p in pairs if p[0] != k] + [[k, ["a", [["i", 0], ["i", 0], bad, ["i", 200]]]]]
         elif kind == "pages-direct":
             pairs = [["Type", ["n", rng.choice(["Page", "Pages", "Pages"])]], ["Rotate", ["i", 180]]]
             if rng.random() < 0.6:
@@ -930,8 +1022,18 @@ def gen_selections(rng, npages: int) -> List[Tuple[Optional[List[int]], int]]:
             sel = [n - 1]
         else:
             sel = sorted(set(rng.randrange(n + 2) for _ in range(rng.randint(1, n + 1))))
+        v = rng.random()
+        if sel and v < 0.12:
+            sel = sel + [rng.choice(sel)] + sel[:1]             # duplicates (a list, not a set)
+            rng.shuffle(sel)
+        elif v < 0.22:
+            sel = list(sel) + [rng.choice([-1, -2, -n, n, n + 7, 10 ** 6])]     # not a page index
+        elif v < 0.28:
+            sel = [rng.choice([-1, -n - 1, n, n + 3])]          # non-empty, selects nothing
         k = rng.random()
-        if k < 0.25:
+        if k < 0.04:
+            mp = -rng.randint(1, 3)                             # outside the domain: tie only
+        elif k < 0.25:
             mp = 0
         elif k < 0.4:
             mp = 1
@@ -1038,6 +1140,22 @@ class DocCheck:
                                       f"(normalised): {','.join(field)}", b, a,
                                       {"op": "attrs", "fields": field})
                             break
+        # (1b) order against the algorithm-independent specification (all simple Kids paths, first arrivals)
+        root = dget(doc["catalog"], "Pages")
+        if err is None and items and root is not None and root[0] == "R":
+            ids_impl = [s.split(" ")[0] for s in items if not s.startswith("None ")]
+            ids_txt = " ".join(ids_impl) or "-"
+            self.req("spec.order", ids_txt, "spec.order" if self.in_domain else "order-wild", {"doc": doc})
+            want = spec_order_paths(doc)
+            if want is None or (not want and not self.in_domain):
+                self.ctx.branch("path-order:skipped")       # too many paths / the fallback scan answered
+            else:
+                self.ctx.branch("path-order:" + str(doc.get("kind")))
+                if self.in_domain and [str(i) for i in want] != ids_impl:
+                    self.fail("pages are not in depth-first Kids order (first arrivals of the depth-first enumeration "
+                              "of all simple Kids paths)", [str(i) for i in want], ids_impl, {"op": "order"})
+                elif not self.in_domain and [str(i) for i in want] != ids_impl:
+                    self.ctx.disagree("order-wild-twin", {"doc": doc}, ids_impl, [str(i) for i in want])
         # (2) selections
         n = len(items)
         if err is None:
@@ -1047,18 +1165,30 @@ class DocCheck:
                 container: Any = None if sel is None else (set(sel) if idx % 2 else list(sel))
                 got, e2 = impl_pages(data, container, mp)
                 got_s = join_pages(got, e2)
-                self.req(f"pages {sel_txt(sel)} {mp}", got_s, "select",
-                         {"doc": doc, "selection": {"page_numbers": sel, "maxpages": mp}})
-                if self.in_domain and e2 is None:
-                    self.req(f"spec.select {sel_txt(sel)} {mp}", got_s, "spec.select",
-                             {"doc": doc, "selection": {"page_numbers": sel, "maxpages": mp}})
+                sel_inp = {"doc": doc, "selection": {"page_numbers": sel, "maxpages": mp}}
+                dom = self.in_domain and mp >= 0          # a negative maxpages is outside the property's domain
+                plain = mp >= 0 and (sel is None or (all(i >= 0 for i in sel) and len(set(sel)) == len(sel)))
+                if plain:
+                    self.req(f"pages {sel_txt(sel)} {mp}", got_s, "select", sel_inp)
+                    if dom and e2 is None:
+                        self.req(f"spec.select {sel_txt(sel)} {mp}", got_s, "spec.select", sel_inp)
+                # the loop with the arguments as Python passes them (None / any container of integers / any integer)
+                self.req(f"pagespy {sel_txt(sel)} {mp}", got_s, "select-py", sel_inp)
+                if dom and e2 is None:
+                    self.req(f"spec.selectpy {sel_txt(sel)} {mp}", got_s, "spec.selectpy", sel_inp)
+                self.ctx.branch("pagenos:" + ("None" if sel is None else "empty" if not sel else
+                                              ("dups" if len(set(sel)) != len(sel) else "") +
+                                              ("+out-of-range" if any(i < 0 or i >= n for i in sel) else "") +
+                                              ("|nothing-in-range" if not any(0 <= i < n for i in sel) else "|some-in-range"))
+                                + ("/" + type(container).__name__ if container is not None else "")
+                                + ("/maxpages<0" if mp < 0 else ""))
                 exp_sel = spec_select(items, sel, mp)
                 beyond = any((not sel or i in sel) and mp and i >= mp for i in range(n))
                 dropped = len(exp_sel) < n
                 self.ctx.case(("sel", self.key, sel, mp), dropped,
                               branch="select:" + ("all" if not sel else "subset") + ("/nolimit" if mp == 0 else "/limit")
                               + ("/selected-beyond-limit" if beyond and sel else ""))
-                if self.in_domain and (e2 is not None or got != exp_sel):
+                if dom and (e2 is not None or got != exp_sel):
                     self.fail("get_pages(page_numbers, maxpages) does not yield exactly the pages whose index is "
                               "selected and below the limit", [s.split(" ")[0] for s in exp_sel],
                               [s.split(" ")[0] for s in got] + ([e2] if e2 else []),
@@ -1067,7 +1197,7 @@ class DocCheck:
                     txt = impl_text(data, container, mp)
                     exp_txt = "".join(page_letter(s) for s in exp_sel) or "-"
                     self.ctx.branch("extract_text")
-                    if self.in_domain and txt != exp_txt:
+                    if dom and txt != exp_txt:
                         self.fail("extract_text(page_numbers, maxpages) does not write exactly the selected pages "
                                   "below the limit, in order", exp_txt, txt,
                                   {"op": "select", "via": "extract_text", "beyond_limit": beyond}, sel=(sel, mp))
@@ -1076,7 +1206,7 @@ class DocCheck:
                         rng.choice([0, 90, 180, 270, -90, 450, 540, 45])
                     boxes = impl_xml_boxes(data, container, mp, rotation)
                     self.ctx.branch(f"rotation-option:{rotation}")
-                    if len(boxes) != len(exp_sel) and self.in_domain:
+                    if len(boxes) != len(exp_sel) and dom:
                         self.fail("extract_text_to_fp(page_numbers, maxpages, rotation) does not write exactly the "
                                   "selected pages below the limit", len(exp_sel), boxes,
                                   {"op": "select", "via": "extract_text_to_fp", "beyond_limit": beyond}, sel=(sel, mp),
@@ -1086,7 +1216,7 @@ class DocCheck:
                         self.req(f"xmlbox {rot} {rotation} {box_txt(mb)}", got_box, "xmlbox",
                                  {"rotate": rot, "rotation": rotation, "mediabox": [str(x) for x in mb]})
                         tot = (rot + rotation) % 360
-                        if self.in_domain and tot % 90 == 0:
+                        if dom and tot % 90 == 0:
                             w_, h_ = mb[2] - mb[0], mb[3] - mb[1]
                             want_box = box_txt((0, 0, w_, h_) if tot % 180 == 0 else (0, 0, h_, w_))
                             if want_box != got_box:
@@ -1098,7 +1228,7 @@ class DocCheck:
                     exp_ep = ";".join(page_letter(s) for s in exp_sel) or "-"
                     got_ep = ";".join(x.split(":")[-1] for x in ep.split(";")) if not ep.startswith("EXC") else ep
                     self.ctx.branch("extract_pages")
-                    if self.in_domain and got_ep != exp_ep:
+                    if dom and got_ep != exp_ep:
                         self.fail("extract_pages(page_numbers, maxpages) does not yield exactly the selected pages "
                                   "below the limit, in order", exp_ep, got_ep,
                                   {"op": "select", "via": "extract_pages", "beyond_limit": beyond}, sel=(sel, mp))
@@ -1230,6 +1360,8 @@ def flush(ctx: C.Ctx, checks: List[DocCheck]) -> None:
                            {"op": op})
                     ctx.fail(c.first_fail)
                 continue
+            if op == "order-wild" and m == "outside-domain":
+                continue        # the fallback scan answered, not the walk
             if m != impl and not reported:
                 reported = True
                 ctx.disagree(op, inp if inp is not None else line, impl, m)
@@ -1268,9 +1400,16 @@ def check_doc(ctx: C.Ctx, doc, pending: List[DocCheck], sels=None, rotation=None
 def gen_doc(ctx: C.Ctx, i: int):
     rng = ctx.rng
     g = DocGen(rng, ctx)
-    doc = g.tree_doc()
     m = i % 10
-    if m in (6, 7):
+    if m == 7:
+        # small, dense Kids graph: many shared nodes, cycles through several nodes, repeated kids
+        doc = g.tree_doc(mode="random", budget=rng.choice([4, 8, 8, 15]))
+        for _ in range(rng.randint(2, 4)):
+            add_graph_edges(rng, doc, ctx)
+        ctx.branch("graph:dense")
+        return doc
+    doc = g.tree_doc()
+    if m == 6:
         add_graph_edges(rng, doc, ctx)
     elif m in (8, 9):
         if rng.random() < 0.3:
